@@ -219,8 +219,8 @@ def sc_constraint(cx, form, cycles=1):
         cx.concrete(tag + ":indices", list(obj.indices) == list(c.indices) and obj.matrix_type == c.matrix_type, info="%r %r" % (list(obj.indices), obj.matrix_type))
 
 
-def sc_fit(cx, ftype, cost, sources, constraints, fixed, limited, cycles=1, model_src=False):
-    pb = Problem(cx, ftype, cost=cost)
+def sc_fit(cx, ftype, cost, sources, constraints, fixed, limited, cycles=1, model_src=False, density=None):
+    pb = Problem(cx, ftype, cost=cost, **({} if density is None else dict(density=density, bin_evaluation="antiderivative")))
     for i, (kind, axis, ref, enabled) in enumerate(sources):
         pb.add_source(kind, "s%d" % i, axis=axis, reference=ref, enabled=enabled)
     for j, c in enumerate(constraints):
@@ -230,18 +230,28 @@ def sc_fit(cx, ftype, cost, sources, constraints, fixed, limited, cycles=1, mode
     if fixed:
         f.fix_parameter("b", q[1])
     if limited:
-        f.limit_parameter("a", -5.0, 7.5)
+        lim_lo, lim_hi = cx.real("lim_lo"), cx.real("lim_hi")  # symbolic bounds: 0 is a point of the domain
+        cx.assume(lim_lo < lim_hi)
+        f.limit_parameter("a", lim_lo, lim_hi)
     g = f
     for k in range(cycles):
         g = roundtrip(cx, g, "fit")
-    tag = "fit/%s/%s" % (ftype, cost)
+    tag = "fit/%s/%s" % (ftype, cost) + ("" if density is None else "/density-%s" % density)
     cx.concrete(tag + ":class", type(g) is type(f), info="%r" % type(g))
     cx.concrete(tag + ":parameter-names", list(g.parameter_names) == list(f.parameter_names))
     cx.eq(tag + ":parameter_values", g.parameter_values, f.parameter_values)
     cx.concrete(tag + ":fixed-names", sorted(g._fitter.fixed_parameters) == sorted(f._fitter.fixed_parameters), info="%r" % sorted(g._fitter.fixed_parameters))
     if fixed:
         cx.eq(tag + ":fixed-value", g._fitter.fixed_parameters["b"], f._fitter.fixed_parameters["b"])
-    cx.concrete(tag + ":limits", {k: tuple(v) for k, v in g._fitter.limited_parameters.items()} == {k: tuple(v) for k, v in f._fitter.limited_parameters.items()}, info="%r" % g._fitter.limited_parameters)
+    lg, lf = g._fitter.limited_parameters, f._fitter.limited_parameters
+    cx.concrete(tag + ":limited-names", sorted(lg) == sorted(lf), info="%r vs %r" % (sorted(lg), sorted(lf)))
+    for k_ in sorted(set(lg) & set(lf)):
+        for side in (0, 1):
+            a_, b_ = lg[k_][side], lf[k_][side]
+            if a_ is None or b_ is None:
+                cx.concrete(tag + ":limit-%s-%d" % (k_, side), a_ is None and b_ is None, info="reloaded %r original %r" % (lg[k_], lf[k_]))
+            else:
+                cx.eq(tag + ":limit-%s-%d" % (k_, side), a_, b_)
     cx.concrete(tag + ":constraints-count", len(g.parameter_constraints) == len(f.parameter_constraints))
     cx.concrete(tag + ":ndf", g.ndf == f.ndf, info="%r vs %r" % (g.ndf, f.ndf))
     cx.concrete(tag + ":sources+enabled", _enabled(g.data_container) == _enabled(f.data_container) and _enabled(g._param_model) == _enabled(f._param_model),
@@ -478,6 +488,8 @@ def scenarios(tier, seed):
         nm = "fit/%s/%s/%s/%s/fixed-%s/limited-%s" % (ftype, cost, "+".join("%s%s%s%s" % (k, a if a == "x" else "", "m" if r == "model" else "", "" if en else "(off)") for k, a, r, en in srcs) or "none",
                                                     "+".join(cons) or "noconstraint", fx, lm)
         S.append(Scenario(nm, sc_fit, family="fit/%s" % ftype, params=dict(ftype=ftype, cost=cost, sources=tuple(srcs), constraints=tuple(cons), fixed=fx, limited=lm)))
+    for dens in (False, True):
+        S.append(Scenario("fit/hist/nll/density-%s" % dens, sc_fit, family="fit/hist", params=dict(ftype="hist", cost="nll", sources=(), constraints=(), fixed=False, limited=False, density=dens)))
     if not q:
         for ftype, cost, srcs, cons, fx, lm in fits[:6]:
             S.append(Scenario("fit-2cycles/%s/%s/%d" % (ftype, cost, len(S)), sc_fit, family="fit/%s" % ftype, params=dict(ftype=ftype, cost=cost, sources=tuple(srcs), constraints=tuple(cons), fixed=fx, limited=lm, cycles=2)))
